@@ -47,6 +47,7 @@
 #define OPS_LEN_LONGFP 0x00002000 /* long double (f, F, e, E, g, G, a, A) */
 #define OPS_SPEC_UPPER_CASE 0x00004000 /* specifier is tall */
 #define OPS_SPEC_POINTER 0x00008000    /* p: 0x also in front of a zero value */
+#define OPS_SPEC_CHAR 0x00010000       /* c: one character, also when it is NUL */
 
 /**
  * Options for print_s
@@ -85,8 +86,9 @@ static int print_s(void (*printchar_handler)(void *d, int c),
 
     pc = 0;
     /* with a precision the array need not be terminated: look no further */
-    len = ops & OPS_PREC_IS_GIVEN ? (int)strnlen(str, max_len)
-                                  : (int)strlen(str);
+    len = ops & OPS_SPEC_CHAR       ? 1
+          : ops & OPS_PREC_IS_GIVEN ? (int)strnlen(str, max_len)
+                                    : (int)strlen(str);
     space_count = width > len ? width - len : 0;
 
     if (!(ops & OPS_FLAG_LEFT_ALIGN))
@@ -617,7 +619,7 @@ int __printf(void (*printchar_handler)(void *d, int c),
                           &tmp.ca[0],
                           width,
                           precision,
-                          ops);
+                          ops | OPS_SPEC_CHAR);
             break;
         case 's':
             /* TODO handle (ops & OPS_LEN_LONG) for wchar_t* */
